@@ -412,3 +412,11 @@ def replay(case, seed):
     for h in HASH_DIGESTS:
         vs += run_unit({'kind': 'hash', 'h': h}, 'quick', seed)['violations']
     return vs
+
+# a subset of the units is executed again in other environments (child interpreters): see core.run_variants
+ENV_VARIANTS = [{'name': 'python-O', 'flags': ['-O']}]
+
+def variant_units(tier, seed, name):
+    pred = lambda uid, p: p.get('kind') in ('contracts', 'histories')
+    return [u for u in units('quick', seed) if pred(u[0], u[1])]
+
